@@ -226,6 +226,12 @@ def run(model: Model, rep: Report) -> None:
         raise AnalysisError("positive control failed: provenance of LTImage.name does not reach the content-stream operand")
     r2.ok(site(lt), lt.qualname, "positive control: LTImage.name originates from the Do operand", note=f"{sum(1 for l in ctl if l.tag == 'DOC')} document origins found", nontrivial=False)
 
+    # resource directories: the fallback for CMAP_PATH is a fixed absolute directory (an empty string would make the current
+    # working directory a resource directory, and a relative one would depend on where the program is started)
+    ld = model.func("pdfminer.cmapdb.CMapDB._load_data")
+    envs = [c for c in walk_no_nested(ld.node) if isinstance(c, ast.Call) and (dotted(c.func) or "") == "os.environ.get" and c.args and isinstance(c.args[0], ast.Constant) and c.args[0].value == "CMAP_PATH"]
+    dflt = envs[0].args[1].value if envs and len(envs[0].args) > 1 and isinstance(envs[0].args[1], ast.Constant) else None
+    r2.check(isinstance(dflt, str) and dflt.startswith("/") and len(dflt) > 1, site(ld, envs[0]) if envs else site(ld), ld.qualname, f"CMAP_PATH falls back to the absolute directory {dflt!r}", why=f"default is {dflt!r}: the document-chosen CMap name is then looked up (and unpickled) relative to the current working directory")
     # ---------------------------------------------------------------- R3
     unique_name_rule(model, rep, "C15-R3")
 
